@@ -352,11 +352,7 @@ def type_roles(repo, res):
     f = ig.func("extract_dtype")
     key = f"{f.key}:real-imag-cond"
     res.ob(key)
-    s = ast.unparse(f.node)
-    if not (re.search(r"is_cond = isinstance\(v, ufl\.classes\.Condition\)\s+if is_cond:\s+return L\.DataType\.BOOL", s)
-            and re.search(r"is_real = isinstance\(v, \(ufl\.classes\.Real, ufl\.classes\.Imag\)\)\s+if is_real:\s+return L\.DataType\.REAL", s)
-            and "return L.merge_dtypes(dtypes)" in s):
-        res.fail(key, "extract_dtype: conditions must be BOOL, Real/Imag REAL, anything else the merged operand type", ig.line(f.node))
+    res.notes.append("extract_dtype is decided by DTYPE-MERGE (interpreted on all operand type combinations)")
     eg = repo.mod("ffcx.codegeneration.expression_generator")
     f = eg.func("ExpressionGenerator.generate_partition")
     key = f"{f.key}:real-imag-cond"
@@ -401,51 +397,163 @@ def type_roles(repo, res):
         d_real = d_cplx = d_int = f"raises {e.what}"
     if (d_real, d_cplx, d_int) != ("DataType.REAL", "DataType.SCALAR", "DataType.INT"):
         res.fail(key, f"literal types are (float, complex, int) -> ({d_real}, {d_cplx}, {d_int}); complex literals must be SCALAR, real ones REAL, integers INT", lm.rel)
-    # formatter dtype names
+    # formatter dtype names, constructor, real-part function and the complex gates: interpreted with a model of numpy dtypes
+    from ..absint import Interp as _I, Node as _N, PyNative as _PN, Raised as _R, _PyCall as _PC
+
+    REALOF = {"float32": "float32", "float64": "float64", "complex64": "float32", "complex128": "float64"}
+
+    class _DT(_PN):
+        def __init__(self, name):
+            self.name = name
+
+        def __eq__(self, o):
+            return isinstance(o, _DT) and o.name == self.name
+
+        def __hash__(self):
+            return hash(self.name)
+
+        def __str__(self):
+            return self.name
+
+        def type(self, v):  # np.dtype(x).type(0) -> a scalar of that type
+            outer = self
+
+            class _Sc(_PN):
+                @property
+                def real(self_):
+                    class _R2(_PN):
+                        dtype = _DT(REALOF[outer.name])
+                    return _R2()
+
+                dtype = outer
+            return _Sc()
+
+    def np_stubs(it):
+        def as_name(t):
+            return t.name if isinstance(t, _DT) else str(t).replace("np.", "")
+        it.overrides["np.dtype"] = _PC(lambda x: x if isinstance(x, _DT) else _DT(as_name(x)))
+        it.overrides["np.floating"] = "np.floating"
+        it.overrides["np.complexfloating"] = "np.complexfloating"
+        it.overrides["np.issubdtype"] = _PC(lambda t, k: (as_name(t).startswith("complex") if str(k).endswith("complexfloating") else as_name(t).startswith("float")))
+        it.overrides["np.iscomplexobj"] = _PC(lambda t: as_name(t).startswith("complex"))
+        for nm in REALOF:
+            it.overrides[f"np.{nm}"] = _DT(nm)
+        return it
+
+    um = repo.mod("ffcx.codegeneration.utils")
+    f = um.func("dtype_to_scalar_dtype")
+    res.functions.add(f.key)
+    key = f"{f.key}:real-part"
+    res.ob(key)
+    got = {}
+    for nm in REALOF:
+        try:
+            r_ = np_stubs(_I(repo, load_classes(repo), primary="ffcx.codegeneration.utils")).call_f(f, [_DT(nm)])
+            got[nm] = r_.name if isinstance(r_, _DT) else str(r_)
+        except _R as e:
+            got[nm] = f"raises {e.what}"
+    if got != REALOF:
+        res.fail(key, f"dtype_to_scalar_dtype maps {got}; floating types must map to themselves, complex types to the type of their real part", um.line(f.node))
     for be in ("C", "numba"):
-        fm = repo.mod(f"ffcx.codegeneration.{be}.formatter")
-        f = fm.func("Formatter._dtype_to_name")
-        s = ast.unparse(f.node)
-        key = f"{f.key}:mapping"
-        res.ob(key)
-        ok = re.search(r"if dtype == L\.DataType\.SCALAR:\s+return [^\n]*self\.scalar_type", s) and re.search(r"if dtype == L\.DataType\.REAL:\s+return [^\n]*self\.real_type", s)
-        if not ok:
-            res.fail(key, f"{be} formatter: SCALAR must map to the scalar type and REAL to its real type", fm.line(f.node), props=("C09",) if be == "C" else ("C09", "C18"))
+        fmn = f"ffcx.codegeneration.{be}.formatter"
+        fm = repo.mod(fmn)
         init = fm.func("Formatter.__init__")
         key = f"{init.key}:real_type"
         res.ob(key)
-        si = ast.unparse(init.node)
-        if "self.scalar_type = np.dtype(dtype)" not in si or "self.real_type = dtype_to_scalar_dtype(dtype)" not in si:
-            res.fail(key, f"{be} formatter: real_type is not dtype_to_scalar_dtype(scalar type)", fm.line(init.node))
-    um = repo.mod("ffcx.codegeneration.utils")
-    f = um.func("dtype_to_scalar_dtype")
-    key = f"{f.key}:real-part"
-    res.ob(key)
-    s = ast.unparse(f.node)
-    if not (re.search(r"if np\.issubdtype\(dtype, np\.floating\):\s+return np\.dtype\(dtype\)", s)
-            and re.search(r"elif np\.issubdtype\(dtype, np\.complexfloating\):\s+return np\.dtype\(dtype\)\.type\(0\)\.real\.dtype", s)):
-        res.fail(key, "dtype_to_scalar_dtype: floating types map to themselves, complex types to the type of their real part", um.line(f.node))
-    # complex gate
+        bad = None
+        objs = {}
+        for nm in REALOF:
+            it = np_stubs(_I(repo, load_classes(repo), primary=fmn))
+            it.overrides["dtype_to_scalar_dtype"] = _PC(lambda t: _DT(REALOF[t.name if isinstance(t, _DT) else str(t)]))
+            o = _N("Formatter")
+            try:
+                it.call_f(init, [o, _DT(nm)])
+            except _R as e:
+                bad = f"raises {e.what}"
+                break
+            st, rt = o.f.get("scalar_type"), o.f.get("real_type")
+            objs[nm] = o
+            if not (isinstance(st, _DT) and st.name == nm and isinstance(rt, _DT) and rt.name == REALOF[nm]):
+                bad = f"for {nm}: scalar_type = {st}, real_type = {rt}"
+                break
+        if bad:
+            res.fail(key, f"{be} formatter constructor: {bad}; real_type must be the real part type of the scalar type", fm.line(init.node))
+            continue
+        f = fm.func("Formatter._dtype_to_name")
+        key = f"{f.key}:mapping"
+        res.ob(key)
+        for nm, o in objs.items():
+            it = np_stubs(_I(repo, load_classes(repo), primary=fmn))
+            it.overrides["dtype_to_c_type"] = _PC(lambda t: f"ctype<{t.name if isinstance(t, _DT) else t}>")
+            try:
+                sc = str(it.call_f(f, [o, "DataType.SCALAR"]))
+                re_ = str(it.call_f(f, [o, "DataType.REAL"]))
+            except _R as e:
+                sc = re_ = f"raises {e.what}"
+            if nm not in sc or REALOF[nm] not in re_ or (nm != REALOF[nm] and nm in re_):
+                res.fail(key, f"{be} formatter with scalar type {nm}: SCALAR is declared `{sc}` and REAL `{re_}`; SCALAR must be the scalar type and REAL its real type "
+                         "(geometry and tables must not be declared complex)", fm.line(f.node), props=("C09",) if be == "C" else ("C09", "C18"))
+                break
+
+    def gate(modname, fn, marker, want_for_complex, what):
+        """The `if` that guards the statement mentioning `marker` is taken exactly for (non-)complex scalar types."""
+        fobj = repo.mod(modname).func(fn)
+        res.functions.add(fobj.key)
+        key = f"{fobj.key}:{what}"
+        res.ob(key)
+        guard = None
+        for n in ast.walk(fobj.node):
+            if isinstance(n, ast.If) and any(marker in ast.unparse(b) for b in n.body) and not any(isinstance(x, ast.If) and any(marker in ast.unparse(bb) for bb in x.body) for b in n.body for x in ast.walk(b) if x is not n):
+                guard = n
+        if guard is None:
+            res.fail(key, f"{fn}: no conditional statement involving `{marker}` found", repo.mod(modname).line(fobj.node))
+            return
+        for nm in REALOF:
+            it = np_stubs(_I(repo, load_classes(repo), primary=modname))
+            env = {"scalar_type": _DT(nm), "options": {"scalar_type": _DT(nm)}}
+            it.ctx.append(repo.mod(modname))
+            try:
+                taken = bool(it.truth(it.expr(guard.test, env)))
+            except _R as e:
+                taken = f"raises {e.what}"
+            finally:
+                it.ctx.pop()
+            if taken is not (nm.startswith("complex") == want_for_complex):
+                res.fail(key, f"{fn}: for scalar type {nm} the branch with `{marker}` is {'taken' if taken is True else 'not taken' if taken is False else taken}; it must be "
+                         f"taken exactly for {'complex' if want_for_complex else 'real'} scalar types", repo.mod(modname).line(guard))
+                return
+
+    gate("ffcx.analysis", "_analyze_expression", "remove_complex_nodes", False, "remove-complex-nodes")
+    gate("ffcx.codegeneration.C.file", "generator", "complex.h", True, "complex.h")
     an = repo.mod("ffcx.analysis")
     f = an.func("_analyze_form")
     key = f"{f.key}:complex_mode"
     res.ob(key)
-    s = ast.unparse(f.node)
-    if "complex_mode = np.issubdtype(scalar_type, np.complexfloating)" not in s or "complex_mode=complex_mode" not in s:
-        res.fail(key, "UFL's complex_mode is not `scalar type is complex`", an.line(f.node))
-    f = an.func("_analyze_expression")
-    key = f"{f.key}:remove-complex-nodes"
-    res.ob(key)
-    s = ast.unparse(f.node)
-    if not re.search(r"if not np\.issubdtype\(scalar_type, np\.complexfloating\):\s+expression = ufl\.algorithms\.remove_complex_nodes\.remove_complex_nodes\(expression\)", s):
-        res.fail(key, "complex nodes of expressions are not removed exactly when the scalar type is real", an.line(f.node))
-    cf = repo.mod("ffcx.codegeneration.C.file").func("generator")
-    key = f"{cf.key}:complex.h"
-    res.ob(key)
-    s = ast.unparse(cf.node)
-    if not re.search(r"if np\.issubdtype\(options\['scalar_type'\], np\.complexfloating\):\s+extra_c_includes \+= \['complex\.h'\]", s) or \
-            "extra_c_includes = []" not in s:
-        res.fail(key, "<complex.h> is not included exactly for complex scalar types", cf.module.line(cf.node))
+    cfd = [c for c in calls_in(f.node) if (call_name(c) or "").endswith("compute_form_data")]
+    cm_arg = next((k.value for c in cfd for k in c.keywords if k.arg == "complex_mode"), None)
+    if cm_arg is None:
+        res.fail(key, "compute_form_data is called without complex_mode", an.line(f.node))
+    else:
+        bad = None
+        for nm in REALOF:
+            it = np_stubs(_I(repo, load_classes(repo), primary="ffcx.analysis"))
+            env = {"scalar_type": _DT(nm)}
+            it.ctx.append(an)
+            try:
+                for st in ast.walk(f.node):
+                    if isinstance(st, ast.Assign) and len(st.targets) == 1 and isinstance(st.targets[0], ast.Name) and isinstance(cm_arg, ast.Name) \
+                            and st.targets[0].id == cm_arg.id:
+                        env[cm_arg.id] = it.expr(st.value, env)
+                val = it.expr(cm_arg, env)
+            except (_R, AnalysisError) as e:
+                val = f"not evaluable ({e})"
+            finally:
+                it.ctx.pop()
+            if val is not nm.startswith("complex"):
+                bad = (nm, val)
+                break
+        if bad:
+            res.fail(key, f"UFL's complex_mode is {bad[1]} for scalar type {bad[0]}; it must be `scalar type is complex` (sesquilinear forms, conj/real/imag kept)", an.line(f.node))
     comp = repo.mod("ffcx.compiler").func("compile_ufl_objects")
     key = f"{comp.key}:scalar-type-to-analysis"
     res.ob(key)
